@@ -75,7 +75,20 @@ def value_strategy(in_dtype, out):
         olo, ohi = dtype_ref.INT_RANGE[out]
         anchors |= {ohi - 1, ohi, ohi + 1, olo - 1, olo}
     anchors = sorted(a for a in anchors if lo <= a <= hi)
-    return st.one_of(st.sampled_from(anchors), st.integers(lo, hi))
+    strategies = [st.sampled_from(anchors), st.integers(lo, hi)]
+    if out == "float32" and hi > 2 ** 53:
+        # 64-bit integers next to the midpoint of two float32 neighbours,
+        # beyond the range where float64 is exact (rounding twice goes wrong
+        # exactly there)
+        def near_midpoint(k, j, d, neg):
+            v = 2 ** k + j * 2 ** (k - 23) + 2 ** (k - 24) + d
+            v = -v if neg and lo < 0 else v
+            return max(lo, min(hi, v))
+        strategies.append(st.builds(
+            near_midpoint, st.integers(54, 63), st.integers(0, 2 ** 23 - 1),
+            st.sampled_from([-1, 0, 1, -3, 3, -(2 ** 10), 2 ** 10]),
+            st.booleans()))
+    return st.one_of(*strategies)
 
 
 @st.composite
